@@ -17,6 +17,9 @@ usage: api2lean.py --repo /repo --out <Api.lean>
 """
 import argparse
 import ast
+import os as _os, sys as _sys
+_sys.path.insert(0, _os.path.dirname(_os.path.abspath(__file__)))
+from astnorm import normalise
 import os
 import sys
 
@@ -49,7 +52,7 @@ LIST_ROUTES = ("Return(value=Call(func=Name(id='str', ctx=Load()), args=[Call(fu
 class Tr:
     def __init__(self, path):
         self.path = path
-        self.tree = ast.parse(open(path).read(), filename=path)
+        self.tree = normalise(ast.parse(open(path).read(), filename=path))
         self.imports = {}     # local name -> Lib field
         self.raising = {}     # local name -> bool
         self.tables = {}      # dict name -> ('exc'|'pure', [(key, lean expr)])
